@@ -80,6 +80,7 @@ def run(tier, replay=None, which=WHICH, pid=PID, harness_fn=None, cli_fn=None, c
         for k, c in o["diags"].items():
             v.hist("diagnostics_seen", k, c)
         touts += o["timeouts"]
+        v.count("cases_skipped_after_repeated_watchdog_firings", o.get("skipped", 0))
         for key, rep in o["viol"]:
             v.violation(key, rep)
     d = v.cov.get("diagnostics_seen", {})
